@@ -418,6 +418,56 @@ func sharedContent(r *hk.Run) {
 	}
 }
 
+// manyFields: a fixed world asked with constraint structs of three to five non-zero fields, the
+// deciding field in every position of the order genMatcher adds its conditions in (Logical,
+// Anything, CamliType, AnyCamliType, Permanode, File, Dir, BlobSize, BlobRefPrefix), plain and under
+// not / xor / and / or.
+func manyFields(r *hk.Run) {
+	c := newCase(r, "fixed many fields in one struct")
+	b := c.b
+	small, mid := b.Bytes("a"), b.Bytes("bb")
+	b.Bytes("ccc")
+	f := b.File("a.txt", mid, 1300000000, "text/plain")
+	b.File("b.html", small, 1300000000, "text/html")
+	p1, p2 := b.PN("many1"), b.PN("many2")
+	b.Claim(p1, "add", "tag", "x", 1400000001)
+	b.Claim(p2, "add", "tag", "y", 1400000002)
+	b.SyncCTimes()
+	pfx := func(ref string) string { return ref[:12] }
+	eq := func(v int64) *IntC { return &IntC{Eq: &v} }
+	big := &IntC{Min: 100}
+	tagx := &PermC{Attr: "tag", Value: "x"}
+	named := &FileC{Name: &StrC{Equals: "a.txt"}}
+	cs := []*Cons{
+		{Anything: true, BlobSize: eq(2), Prefix: pfx(small)},                         // the middle field decides
+		{Anything: true, BlobSize: eq(1), Prefix: pfx(mid)},                           // the last one
+		{Anything: true, Camli: "file", AnyCamli: true, BlobSize: big},                // four fields
+		{Camli: "permanode", Pn: tagx, BlobSize: big},                                 // camliType + permanode + blobSize
+		{Camli: "permanode", Pn: tagx, BlobSize: big, Prefix: pfx(p2)},                // … + prefix of the other permanode
+		{Anything: true, Camli: "permanode", AnyCamli: true, Pn: tagx, BlobSize: big}, // five
+		{Camli: "file", File: named, BlobSize: big, Prefix: pfx(f)},
+		{Camli: "file", AnyCamli: true, File: &FileC{Name: &StrC{Equals: "b.html"}}, BlobSize: big},
+		{Op: "or", A: &Cons{Pn: tagx}, B: &Cons{File: named}, Camli: "file", BlobSize: big}, // Logical beside other fields
+		{Op: "not", A: &Cons{Camli: "claim"}, AnyCamli: true, BlobSize: big, Prefix: pfx(p1)},
+	}
+	n := len(cs)
+	for i := 0; i < n; i++ {
+		cs = append(cs, &Cons{Op: "not", A: cs[i]})
+		cs = append(cs, &Cons{Op: "xor", A: cs[i], B: &Cons{Camli: "permanode"}})
+		cs = append(cs, &Cons{Op: "and", A: &Cons{AnyCamli: true}, B: cs[i]})
+		cs = append(cs, &Cons{Op: "or", A: cs[i], B: &Cons{Camli: "directory"}})
+	}
+	for _, cons := range cs {
+		for _, s := range []string{"unsorted", "blobref", "unspec", "-created"} {
+			r.Hit("fixed-many-fields")
+			c.query(s, -1, cons, "nonconstant")
+		}
+	}
+	if len(b.Bad) > 0 {
+		r.Fail("world-build", strings.Join(b.Bad, "; "), "ok", "", r.CaseOps())
+	}
+}
+
 func malformed(r *hk.Run) {
 	c := newCase(r, "malformed ops")
 	b := c.b
@@ -455,6 +505,7 @@ func Run(r *hk.Run) {
 	edgeHistory(r)
 	wideDates(r)
 	sharedContent(r)
+	manyFields(r)
 	malformed(r)
 	worlds, consPer, maxDepth := 500, 6, 3
 	if r.Thorough() {
@@ -512,6 +563,9 @@ func Run(r *hk.Run) {
 			}
 			if HasRelation(cons) {
 				r.Hit("cons-region:relation")
+			}
+			if ManyFields(cons) {
+				r.Hit("cons-region:struct-with-3-or-more-fields")
 			}
 			if HasAt(cons) {
 				r.Hit("cons-region:at")
